@@ -233,6 +233,7 @@ def run(tier, rep):
     # ---- compound expressions, statements, patterns: Syntax.tla
     import c11syn
     c11syn.run(tier, rep, rng(12))
+    c11syn.run_items(tier, rep, rng(13))
     # ---- literals
     r = run_tlc("Lexis", "Lexis.cfg", workers=4, xmx="4g", timeout=900)
     if not tlc_ok(r, "Lexis"):
@@ -308,7 +309,7 @@ def run(tier, rep):
                 lit_ok += 1
     states += rep.coverage.get("syntax_states", 0) + tg.distinct
     trans += rep.coverage.get("syntax_states", 0) + tg.generated
-    rep.coverage.update({"states": states + r.distinct, "transitions": trans + r.generated, "traces_validated_against_impl": len(reqs) + len(lreq) + len(treq) + rep.coverage.get("syntax_trees_parsed_equal", 0),
+    rep.coverage.update({"states": states + r.distinct, "transitions": trans + r.generated, "traces_validated_against_impl": len(reqs) + len(lreq) + len(treq) + rep.coverage.get("syntax_trees_parsed_equal", 0) + rep.coverage.get("item_files_parsed_equal", 0),
                          "expression_texts": len(reqs), "expression_trees": len(trees), "expressions_ok": ok, "literals": len(lreq), "literals_ok": lit_ok,
                          "exhaustive": True})
     rep.assumptions += ["operator trees: all shapes with <= 2 operator nodes over every operator, <= 3 nodes over one or two operators per precedence level"
